@@ -147,13 +147,16 @@ func (l *link) status() string {
 // refuser is a raw runtime peer (multiplexer + ttRPC server, built the way
 // pkg/adaptation/plugin.go connect()/start() builds the runtime end) that answers
 // RegisterPlugin with an error. Like the adaptation it leaves closing the connection to the
-// plugin, unless closeAfter is set.
+// plugin, unless closeAfter is set. With accept it registers the plugin and then drops the
+// connection without ever configuring it.
 type refuser struct {
 	conn       net.Conn
 	mux        multiplex.Mux
 	rpcs       *ttrpc.Server
 	rpcl       net.Listener
 	closeAfter bool
+	accept     bool          // answer RegisterPlugin with success, then (closeAfter) drop: Configure never comes
+	delay      time.Duration // between the answer and the close
 	regs       atomic.Int32
 	done       chan struct{}
 	once       sync.Once
@@ -163,9 +166,12 @@ func (r *refuser) RegisterPlugin(context.Context, *api.RegisterPluginRequest) (*
 	r.regs.Add(1)
 	if r.closeAfter {
 		go func() {
-			time.Sleep(time.Millisecond)
+			time.Sleep(r.delay)
 			r.close()
 		}()
+	}
+	if r.accept {
+		return &api.Empty{}, nil
 	}
 	return &api.Empty{}, errors.New("verif: registration refused")
 }
@@ -174,8 +180,8 @@ func (r *refuser) UpdateContainers(context.Context, *api.UpdateContainersRequest
 	return &api.UpdateContainersResponse{}, nil
 }
 
-func newRefuser(conn net.Conn, closeAfter bool) (*refuser, error) {
-	r := &refuser{conn: conn, closeAfter: closeAfter, done: make(chan struct{})}
+func newRefuser(conn net.Conn, accept, closeAfter bool, delay time.Duration) (*refuser, error) {
+	r := &refuser{conn: conn, accept: accept, closeAfter: closeAfter, delay: delay, done: make(chan struct{})}
 	r.mux = multiplex.Multiplex(conn, multiplex.WithBlockedRead())
 	rpcs, err := ttrpc.NewServer()
 	if err != nil {
